@@ -1,6 +1,7 @@
 """C10 Parsers are total and enforce their configured limits."""
 from __future__ import annotations
 
+import asyncio
 import os
 import subprocess
 import sys
@@ -119,6 +120,85 @@ def total_cases(draw, mode: str):
     data = draw(st.binary(max_size=80) | st.lists(st.sampled_from([b"GET", b"HTTP/1.1", b" ", b"\r\n", b"\n", b"\r", b":", b"/", b"Host", b"0", b"5", b"a",
                                                                      b"Transfer-Encoding: chunked", b"Content-Length: 3", b";", b"\x00", b"\xff"]), max_size=24).map(b"".join))
     return {"kind": draw(st.sampled_from(["request", "response-lax", "response-strict"])), "stream": data, "cls": "random", "cuts": cuts, "limits": limits}
+
+
+def check_client(rec: Rec, case: dict) -> None:
+    """The same hostile response bytes, but through a real ClientSession: whatever the peer sends, the caller gets a response
+    or an aiohttp client error (ClientError family, incl. ClientResponseError / ClientPayloadError) - never a raw parser
+    exception or anything else."""
+    import aiohttp
+    from vlib import memnet
+    from vlib.detloop import Quiescent, new_loop
+
+    loop = new_loop()
+    out: dict = {}
+    try:
+        asyncio.set_event_loop(loop)
+        stream = case["interim"] + case["stream"]
+        pieces = []
+        prev = 0
+        for c in sorted({x % (len(stream) + 1) for x in case["cuts"]} | {len(case["interim"]) if case.get("cut_after_interim") else 0}):
+            if 0 < c < len(stream):
+                pieces.append(stream[prev:c])
+                prev = c
+        pieces.append(stream[prev:])
+
+        class Peer(memnet.ScriptPeer):
+            def data_received(self, data: bytes) -> None:
+                super().data_received(data)
+                if b"\r\n\r\n" in self.received and not getattr(self, "answered", False):
+                    self.answered = True
+                    for i, piece in enumerate(pieces):
+                        loop.call_later(0.01 * i, lambda p=piece: (not self.transport.closing) and self.send(p))
+                    loop.call_later(0.01 * len(pieces) + 0.01, lambda: (not self.transport.closing) and self.close())
+
+        MC = memnet.make_connector_class()
+
+        async def go():
+            conn = MC(lambda req, idx: (Peer(), None, None))
+            session = aiohttp.ClientSession(connector=conn, timeout=aiohttp.ClientTimeout(total=30), **case.get("limits_kw", {}))
+            try:
+                try:
+                    resp = await session.get("http://h.test/")
+                    out["status"] = resp.status
+                    out["body"] = len(await resp.read())
+                except BaseException as e:  # noqa: BLE001 - judged below
+                    out["exc"] = e
+            finally:
+                await session.close()
+
+        try:
+            loop.drive(go(), max_time=200)
+        except Quiescent:
+            raise Violation("client-hangs", f"session.get() never returns for {case['stream'][:80]!r}")
+        if loop.exc_contexts:
+            ctx = loop.exc_contexts[0]
+            e = ctx.get("exception")
+            raise Violation(hyp.exc_key(e, "client-loop-exception") if e else "client-loop-exception", f"{ctx.get('message')}: {e!r}"[:300])
+    finally:
+        asyncio.set_event_loop(None)
+        loop.shutdown()
+    e = out.get("exc")
+    if e is not None and not isinstance(e, (aiohttp.ClientError, asyncio.TimeoutError)):
+        raise Violation(hyp.exc_key(e, "client-other-exception"), f"session.get() raised {type(e).__module__}.{type(e).__name__}: {e!r} (not a client error) for "
+                        f"{(case['interim'] + case['stream'])[:120]!r} in {len(pieces)} piece(s)")
+    rec.case(case, bool(case["interim"]) or e is not None, ["client", "client-error" if e is not None else "client-ok"] + (["interim"] if case["interim"] else []))
+
+
+@st.composite
+def client_cases(draw):
+    base = draw(total_cases("response"))
+    interim = draw(st.sampled_from([b"", b"", b"HTTP/1.1 100 Continue\r\n\r\n", b"HTTP/1.1 103 Early Hints\r\nLink: </a>\r\n\r\n",
+                                    b"HTTP/1.1 102 Processing\r\n\r\nHTTP/1.1 103 Early Hints\r\n\r\n"]))
+    limits = draw(st.sampled_from([{}, {}, {"max_line_size": 40, "max_field_size": 40}, {"max_headers": 4}]))
+    cuts = list(base["cuts"])
+    if cuts and isinstance(cuts[0], (list, tuple)):
+        cuts = list(cuts[0])
+    return {"stream": base["stream"], "interim": interim, "cuts": cuts[:4], "cut_after_interim": draw(st.booleans()), "limits_kw": limits}
+
+
+def unit_client(rec: Rec, n: int, offset: int) -> None:
+    hyp.run(rec, client_cases(), check_client, n, seed_offset=offset)
 
 
 def unit_total(rec: Rec, n: int, offset: int, mode: str) -> None:
@@ -352,6 +432,8 @@ def units(tier: str, seed: int) -> list[Unit]:
     for sh in range(ns):
         us.append(Unit(f"limits{sh}", unit_limits, {"shard": sh, "nshards": ns, "full_cuts": tier != "quick"}))
     us.append(Unit("work", unit_work, {"base": 150 if tier == "quick" else 600}))
+    for i in range(3 if tier == "quick" else 6):
+        us.append(Unit(f"client{i}", unit_client, {"n": 150 if tier == "quick" else 4000, "offset": 60 + i}))
     if tier == "thorough":
         for sh in range(8):
             us.append(Unit(f"atheris{sh}", unit_atheris, {"shard": sh, "runs": 250000, "seeded": sh >= 4}))
@@ -359,6 +441,9 @@ def units(tier: str, seed: int) -> list[Unit]:
 
 
 def replay(rec: Rec, case: dict) -> None:
+    if "interim" in case:
+        check_client(rec, case)
+        return
     if "stream" in case and "kind" in case and "pos" not in case:
         check_total(rec, case)
         return
